@@ -5,9 +5,13 @@
    End to end: [C13_hop_delivers] (one hop pays the pair's own simulation of the router's whole balance to
    the destination and leaves the router with none of the offer asset), [C13_one_hop_quote] and
    [C13_two_hops_quote] (the recipient receives exactly the router's quote, the router keeps nothing).
-   PARTIAL: routes of 3 and 4 hops are covered by the same per-hop theorem but the induction over an
-   arbitrary hop list is not assembled; they are monitored on the real code on every run (mon_C13). *)
-From HT Require Import Base.Prelude Num.Arith Amm.Formulas Amm.Guards World.World Proofs.LedgerProofs Proofs.RouterProofs Proofs.RouteQuoteProofs.
+   [C13_route_quote] / [C13_exec_route_quote]: for a chain route of ANY number of hops through distinct
+   pairs over pairwise distinct assets, entered with the router holding only the input, the recipient
+   receives exactly the router's own quote and every route asset ends at zero in the router (induction
+   over the hop list).  [chain_from a0 ops]: consecutive hops share the intermediate asset;
+   [hop_ok w rcv o p]: hop o resolves through the factory registry to the existing pair p that trades
+   exactly its two assets and is neither the router nor the recipient. *)
+From HT Require Import Base.Prelude Num.Arith Amm.Formulas Amm.Guards World.World Proofs.LedgerProofs Proofs.RouterProofs Proofs.FrameProofs Proofs.RouteQuoteProofs Proofs.RouteNProofs.
 
 Theorem C13_rejects_empty : forall w s m to, exists e, router_exec_ops w s [] m to = Err e.
 Proof. exact router_rejects_empty. Qed.
@@ -88,6 +92,41 @@ Theorem C13_two_hops_quote : forall w sender a0 a1 a2 to w' r1 ps1 r2 ps2 amount
             bal w' a0 (w_rtr w) = 0 /\ bal w' a1 (w_rtr w) = 0 /\ bal w' a2 (w_rtr w) = 0.
 Proof. exact route_two_hops_deliver_quote. Qed.
 
+Theorem C13_route_quote : forall ops w sender a0 to w' amount pairs,
+  ops <> [] ->
+  router_hops w ops (match to with Some t => t | None => sender end) = Ok w' ->
+  chain_from a0 ops ->
+  let rcv := match to with Some t => t | None => sender end in
+  rcv <> w_rtr w ->
+  length pairs = length ops ->
+  (forall i o p, nth_error ops i = Some o -> nth_error pairs i = Some p -> hop_ok w rcv o p) ->
+  NoDup pairs ->                                               (* hops use distinct pairs *)
+  (forall x y, In x (route_assets a0 ops) -> In y (route_assets a0 ops) -> x = y \/ asset_eqb x y = false) ->
+  NoDup (route_assets a0 ops) ->                               (* a simple path: pairwise distinct assets *)
+  asset_balance w a0 (w_rtr w) = Ok amount ->                   (* the router holds the input ... *)
+  (forall x, In x (map snd ops) -> bal w x (w_rtr w) = 0) ->    (* ... and none of the other route assets *)
+  exists q, q_router_simulate w amount ops = Ok q /\
+            bal w' (snd (last ops (a0, a0))) rcv = bal w (snd (last ops (a0, a0))) rcv + q /\
+            (forall x, In x (route_assets a0 ops) -> bal w' x (w_rtr w) = 0).
+Proof. exact route_delivers_quote. Qed.
+Theorem C13_exec_route_quote : forall ops w sender a0 to w' amount pairs,
+  router_exec_ops w sender ops None to = Ok w' ->
+  chain_from a0 ops ->
+  let rcv := match to with Some t => t | None => sender end in
+  rcv <> w_rtr w -> length pairs = length ops ->
+  (forall i o p, nth_error ops i = Some o -> nth_error pairs i = Some p -> hop_ok w rcv o p) ->
+  NoDup pairs ->
+  (forall x y, In x (route_assets a0 ops) -> In y (route_assets a0 ops) -> x = y \/ asset_eqb x y = false) ->
+  NoDup (route_assets a0 ops) ->
+  asset_balance w a0 (w_rtr w) = Ok amount ->
+  (forall x, In x (map snd ops) -> bal w x (w_rtr w) = 0) ->
+  exists q, q_router_simulate_ops w amount ops = Ok q /\
+            bal w' (snd (last ops (a0, a0))) rcv = bal w (snd (last ops (a0, a0))) rcv + q /\
+            (forall x, In x (route_assets a0 ops) -> bal w' x (w_rtr w) = 0).
+Proof. exact router_exec_ops_delivers_quote. Qed.
+
+Print Assumptions C13_route_quote.
+Print Assumptions C13_exec_route_quote.
 Print Assumptions C13_hop_delivers.
 Print Assumptions C13_one_hop_quote.
 Print Assumptions C13_two_hops_quote.
